@@ -139,6 +139,15 @@ func (ms *Modules) resolveIdentities() []error {
 
 	var errs []error
 
+	// A submodule that no module includes any more (a later revision took
+	// its place) is not visited below: forget what an earlier run derived
+	// from its identities.
+	for _, sm := range ms.SubModules {
+		for _, i := range sm.Identities() {
+			i.Values = nil
+		}
+	}
+
 	// Across all modules, read the identity values that have been extracted
 	// from them, and compile them into a "fully resolved" map that means that
 	// we can look them up based on the 'real' prefix of the module and the
